@@ -102,6 +102,8 @@ func runC17(c *CaseCtx) {
 		cc.DBs[0].Seg = int64(8192 + r.Intn(8192))
 		cc.Merge = 1
 		cc.Goroutines = 4 + r.Intn(5)
+		cc.YieldP = 0.05 // (a yield point per scanned record: 0.3 would make every Merge take seconds)
+		cc.TxPerG = tier(c.Tier, 160, 300) / cc.Goroutines * 2
 	}
 	c.Log("goroutines=%d db=%v shards=%d yield=%.2f mergers=%d alldead=%v pkeys=%d", cc.Goroutines, cc.DBs[0], cc.Shards, cc.YieldP, cc.Merge, cc.AllDeadStart, cc.PKeys)
 	res := runConc(c, cc)
@@ -356,9 +358,10 @@ func init() {
 	})
 	register(&Check{
 		ID: "C17", Level: "exploration", LeakClass: "merge-concurrent",
-		NCases:  func(t string) int { return tier(t, 48, 2000) },
-		Run:     runC17,
-		Workers: 8,
+		NCases:       func(t string) int { return tier(t, 48, 2000) },
+		Run:          runC17,
+		Workers:      8,
+		CaseDeadline: 8 * time.Minute, // wall-clock watchdog only (see C14)
 		Rule: "case = as C14 (race detector + recorded history + porcupine) on one RAM-mode database with small segments while 1-2 extra goroutines call Merge in a loop; KV and sets only (for which a sequential Merge preserves contents, so that a discrepancy is attributable to concurrency); Merge is not an operation of the model - it must be invisible; " +
 			"non-trivial = at least one successful Merge overlapped the workload",
 		Assumptions: []string{"as C14"},
